@@ -83,6 +83,8 @@ CONFIGS = {
     "machineid": dict(dels=["edge", "punct"], kinds=["kw", "text", "pw", "ip", "fqdn", "mac"], obf=[True, False],
                       host=[True, False], mac=[True, False], kws=[[1]], pats=[[], [1]], nored=[True],
                       noobf=[MACHINE_ID, EXEMPT4[3]]),
+    # three and four password keys on one line
+    "pw4": dict(dels=["space"], tok=4, kinds=["pw", "text"], obf=[True, False], pats=[[]], kws=[[]]),
     # two tokens on one line (repeats, mixed kinds, prefix addresses), plain and regex patterns
     "pair": dict(dels=["space", "punct"], tok=2, nip=2, pats=[[], [1]], regex=[False, True],
                  fam=["plain", "prefix"]),
@@ -117,6 +119,8 @@ CONFIGS = {
     # a keyword inside a host name of the domain, two specs of which one exempts keywords
     "hist2kw": dict(kinds=["dom", "kw", "fqdn"], ndom=2, tok=2, lines=2, specs=2, tot=2, kws=[[1]],
                     noobf=[[], ["keyword"]], fam=["kwdom", "kwhost"]),
+    # one keyword is a part of another one, both orders of configuration
+    "hist2kwsub": dict(kinds=["kw", "text"], nkw=2, kws=[[1, 2]], tok=2, lines=2, specs=1, tot=2, fam=["kwsub", "kwsup"]),
     # the cleaner is built without an explicit fqdn (the OS answers with the declared name), display_name set / unset
     "hist2own": dict(kinds=["ip", "short", "fqdn", "dom", "mac"], tok=2, lines=2, specs=1, tot=2, kws=[[]],
                      nofqdn=[True], dname=[True, False], sysdom=[True, False]),
@@ -147,6 +151,9 @@ CONFIGS = {
     # allow list of two keys with budgets 1-2, lines with one or both keys
     "runsallow2": dict(kinds=["text", "akey"], nak=2, tok=2, lines=3, kws=[[]], allow=[1, 2], runs=2),
     "runsallow3": dict(kinds=["text", "akey"], nak=3, tok=3, lines=2, kws=[[]], allow=[1, 2], runs=2),
+    # text with characters that str.splitlines() (but not a text file's line iteration) takes for line ends, next to
+    # a pattern / allow-list key on the same line; also through clean_file
+    "runsvt": dict(kinds=["text", "pat", "akey"], tok=2, lines=2, pats=[[1]], kws=[[]], allow=[0, 1], fam=["vt"], runs=2),
     # every order, two runs: OneOrder / Deterministic on the model
     "ordruns": dict(kinds=["kw", "fqdn", "pw", "pat"], tok=1, lines=1, blank=True, pats=[[1]],
                     fam=["plain", "kwdom", "pwip"], runs=2, allorders=True),
@@ -156,15 +163,15 @@ CONFIGS = {
 }
 
 PLAN = {
-    "C08": dict(quick=dict(emit=["tok1", "switch1", "machineid", "pair", "pats3", "pairx", "pairc", "pairw"], model=["orders"], cap=8000, nconc=3,
+    "C08": dict(quick=dict(emit=["tok1", "switch1", "machineid", "pw4", "pair", "pats3", "pairx", "pairc", "pairw"], model=["orders"], cap=8000, nconc=3,
                            paths=["content", "specprovider", "provider"]),
-                thorough=dict(emit=["tok1", "switch1", "machineid", "pair", "pats3", "pairx", "pairc", "pairw", "triple", "triplep"], model=["orders"],
+                thorough=dict(emit=["tok1", "switch1", "machineid", "pw4", "pair", "pats3", "pairx", "pairc", "pairw", "triple", "triplep"], model=["orders"],
                               cap=45000, nconc=6, paths=["content", "content", "file", "provider", "fileprovider", "specprovider"])),
-    "C09": dict(quick=dict(emit=["hist2", "hist2x", "histw", "hist3v6", "hist2v6", "hist2v6lb", "hist2kw", "hist2own"], model=[], cap=8000, nconc=2, paths=["content"], long=80),
-                thorough=dict(emit=["hist2", "hist2x", "histw", "hist3v6", "hist2v6", "hist2v6lb", "hist2kw", "hist2own", "hist3ip", "hist3host", "hist3mac"], model=[], cap=50000, long=600,
+    "C09": dict(quick=dict(emit=["hist2", "hist2x", "histw", "hist3v6", "hist2v6", "hist2v6lb", "hist2kw", "hist2kwsub", "hist2own"], model=[], cap=8000, nconc=2, paths=["content"], long=80),
+                thorough=dict(emit=["hist2", "hist2x", "histw", "hist3v6", "hist2v6", "hist2v6lb", "hist2kw", "hist2kwsub", "hist2own", "hist3ip", "hist3host", "hist3mac"], model=[], cap=50000, long=600,
                               nconc=3, paths=["content", "content", "provider", "file"])),
-    "C10": dict(quick=dict(emit=["runs3", "runs2sp", "runsnone", "runsallow", "runsallow2", "runshosts"], model=["ordruns"], cap=800, seeds=16),
-                thorough=dict(emit=["runs3", "runs2sp", "runsnone", "runsallow", "runsallow2", "runsallow3", "runshosts", "runs2x2", "runs4"], model=["ordruns"], cap=5000, seeds=64)),
+    "C10": dict(quick=dict(emit=["runs3", "runs2sp", "runsnone", "runsallow", "runsallow2", "runshosts", "runsvt"], model=["ordruns"], cap=800, seeds=16),
+                thorough=dict(emit=["runs3", "runs2sp", "runsnone", "runsallow", "runsallow2", "runsallow3", "runshosts", "runsvt", "runs2x2", "runs4"], model=["ordruns"], cap=5000, seeds=64)),
 }
 
 ASSUMPTIONS = [
@@ -416,6 +423,8 @@ def run(prop, tier):
             c["paths"] = ["content", "provider"]
             if any(sp["sp"]["allow"] for sp in c["content"]):
                 c["paths"] = ["content", "filterprovider"]
+            if c["cf"]["fam"] == "vt":
+                c["paths"] = ["content", "file"]
         K = plan["seeds"]
         payload = dict(mode="runs", cases=cases, seed=lib.seed(), tmp=tmp)
         payloads = []
